@@ -25,14 +25,14 @@ variable {S : Type} [LT S] [DecidableLT S]
 
 /-- the scanning loop of `numpy.argmax`: `b` is the best index so far, `vb` its value; a later
 index replaces it only when strictly larger (first maximum wins) -/
-def argmaxLoop (f : Nat → S) : Nat → Nat → Nat → S → Nat
+@[specialize] def argmaxLoop (f : Nat → S) : Nat → Nat → Nat → S → Nat
   | 0, _, b, _ => b
   | k + 1, i, b, vb =>
       let v := f i
       if vb < v then argmaxLoop f k (i + 1) i v else argmaxLoop f k (i + 1) b vb
 
 /-- first index `< n` maximising `f` (`n = 0` is rejected by the callers: numpy raises) -/
-def argmaxIdx (f : Nat → S) : Nat → Nat
+@[specialize] def argmaxIdx (f : Nat → S) : Nat → Nat
   | 0 => 0
   | n + 1 => argmaxLoop f n 1 0 (f 0)
 
@@ -95,46 +95,61 @@ def pathFinite (T : Tables S) (bot : S) : List Nat → Prop
 /-! ### the same computation with stored rows -/
 
 /-- store `f 0 … f (n-1)` -/
-def tab {α : Type} (n : Nat) (f : Nat → α) : Array α := Array.ofFn (n := n) fun i => f i.val
+@[inline] def tab {α : Type} (n : Nat) (f : Nat → α) : Array α := Array.ofFn (n := n) fun i => f i.val
 
 /-- read a stored row; outside the stored range fall back on the function the row was made from
 (never reached by the algorithm; makes `look (tab n f) f = f` hold without side conditions) -/
-def look {α : Type} (a : Array α) (f : Nat → α) (i : Nat) : α := if h : i < a.size then a[i] else f i
+@[inline] def look {α : Type} (a : Array α) (f : Nat → α) (i : Nat) : α := if h : i < a.size then a[i] else f i
 
-/-- forward pass: `(loglik_matrix[t], [path_matrix[t], …, path_matrix[1]])` -/
-def fwdExec (T : Tables S) : Nat → Array S × List (Array Nat)
-  | 0 => (tab T.n T.init, [])
+/-- forward pass: `(loglik_matrix[t], [path_matrix[t], …, path_matrix[1]])`.  The tables are
+separate arguments so that the compiler specialises the loop to the concrete tables and score
+type; `fb t` is the fall-back of `look` for row `t` (the recursion equations; never reached) -/
+@[specialize] def fwdCore (n : Nat) (init : Nat → S) (trans : Nat → Nat → S) (emit : Nat → Nat → S)
+    (fb : Nat → Nat → S) : Nat → Array S × List (Array Nat)
+  | 0 => (tab n init, [])
   | t + 1 =>
-      let r := fwdExec T t
-      let prev := look r.1 (fwd add T t)
-      let arg := fun j => argmaxIdx (fun i => add (prev i) (T.trans i j)) T.n
-      let bpRow := tab T.n arg
+      let r := fwdCore n init trans emit fb t
+      let prev := look r.1 (fb t)
+      let arg := fun j => argmaxIdx (fun i => add (prev i) (trans i j)) n
+      let bpRow := tab n arg
       let b := look bpRow arg
-      (tab T.n fun j => add (add (prev (b j)) (T.trans (b j) j)) (T.emit (t + 1) j), bpRow :: r.2)
+      (tab n fun j => add (add (prev (b j)) (trans (b j) j)) (emit (t + 1) j), bpRow :: r.2)
+
+@[inline] def fwdExec (T : Tables S) (t : Nat) : Array S × List (Array Nat) :=
+  fwdCore add T.n T.init T.trans T.emit (fwd add T) t
 
 /-- back-tracking through the stored `path_matrix` rows (newest first) -/
 def backExec (T : Tables S) : Nat → List (Array Nat) → Nat → List Nat
   | t + 1, a :: rest, j => j :: backExec T t rest (look a (bp add T t) j)
   | _, _, j => [j]
 
-/-- the Viterbi path in forward order, computed with stored rows -/
-def viterbiExec (T : Tables S) (frames : Nat) : List Nat :=
+/-- the Viterbi path in forward order and `max(loglik_matrix[-1])`, computed with stored rows -/
+@[inline] def viterbiRun (T : Tables S) (frames : Nat) : List Nat × S :=
   let r := fwdExec add T (frames - 1)
-  let last := argmaxIdx (look r.1 (fwd add T (frames - 1))) T.n
-  (backExec add T (frames - 1) r.2 last).reverse
+  let row := look r.1 (fwd add T (frames - 1))
+  let last := argmaxIdx row T.n
+  ((backExec add T (frames - 1) r.2 last).reverse, row last)
+
+def viterbiExec (T : Tables S) (frames : Nat) : List Nat := (viterbiRun add T frames).1
 
 /-- the helper as called: zero frames → `IndexError` (row 0 is written first), no state →
-`ValueError` (`argmax` of an empty sequence) -/
-def viterbi (T : Tables S) (frames : Nat) : Except String (List Nat) :=
+`ValueError` (`argmax` of an empty sequence); otherwise the path and `max(loglik_matrix[-1])` -/
+@[inline] def viterbiFull (T : Tables S) (frames : Nat) : Except String (List Nat × S) :=
   if frames = 0 then .error "IndexError"
   else if T.n = 0 then .error "ValueError"
-  else .ok (viterbiExec add T frames)
+  else .ok (viterbiRun add T frames)
+
+/-- the returned path -/
+@[inline] def viterbi (T : Tables S) (frames : Nat) : Except String (List Nat) :=
+  match viterbiFull add T frames with
+  | .ok r => .ok r.1
+  | .error e => .error e
 
 /-! ### the two layouts -/
 
 /-- `_key_chord_viterbi`: state `i = key * C + chord` (`C = len(_CHORDS)`), uniform key prior,
 emission depends on the chord only (`np.tile(chord_frame_loglik[frame], 12)`) -/
-def kcTables (C : Nat) (negLog12 : S) (kc fl tr : Nat → Nat → S) : Tables S where
+@[inline] def kcTables (C : Nat) (negLog12 : S) (kc fl tr : Nat → Nat → S) : Tables S where
   n := 12 * C
   init := fun i => add (add negLog12 (kc (i / C) (i % C))) (fl 0 (i % C))
   trans := tr
@@ -142,7 +157,7 @@ def kcTables (C : Nat) (negLog12 : S) (kc fl tr : Nat → Nat → S) : Tables S 
 
 /-- `_melody_viterbi`: state 0 = rest, `1..P` onsets, `P+1..2P` sustains; the first frame follows
 a rest -/
-def melTables (P : Nat) (fl tr : Nat → Nat → S) : Tables S where
+@[inline] def melTables (P : Nat) (fl tr : Nat → Nat → S) : Tables S where
   n := 2 * P + 1
   init := fun j => add (tr 0 j) (fl 0 j)
   trans := tr
@@ -220,6 +235,41 @@ def mapOk {α β : Type} (f : α → Except String β) : List α → Except Stri
 def melEvents (pitches : List Nat) (path : List Nat) : Except String (List MelEvent) :=
   mapOk (melDecode pitches) path
 
+/-! ## Scores with −∞ in rounded arithmetic: a double is a rational or −∞, `a + b` is `R (a + b)`
+(`R = rne53`: IEEE-754 binary64 round-to-nearest-even; −∞ absorbs; NaN / +∞ / overflow are outside) -/
+inductive ExtQ where
+  | ninf
+  | fin (v : Rat)
+deriving DecidableEq, Repr
+
+namespace ExtQ
+def addR (R : Rat → Rat) : ExtQ → ExtQ → ExtQ
+  | fin a, fin b => fin (R (a + b))
+  | _, _ => ninf
+
+def lt : ExtQ → ExtQ → Prop
+  | ninf, fin _ => True
+  | fin a, fin b => a < b
+  | _, _ => False
+
+def le : ExtQ → ExtQ → Prop
+  | ninf, _ => True
+  | fin a, fin b => a ≤ b
+  | fin _, ninf => False
+
+instance : LT ExtQ := ⟨lt⟩
+instance : LE ExtQ := ⟨le⟩
+instance : DecidableLT ExtQ := fun a b => match a, b with
+  | ninf, fin _ => isTrue trivial
+  | fin x, fin y => inferInstanceAs (Decidable (x < y))
+  | ninf, ninf => isFalse (fun h => h)
+  | fin _, ninf => isFalse (fun h => h)
+instance : DecidableLE ExtQ := fun a b => match a, b with
+  | ninf, _ => isTrue (by cases b <;> trivial)
+  | fin x, fin y => inferInstanceAs (Decidable (x ≤ y))
+  | fin _, ninf => isFalse (fun h => h)
+end ExtQ
+
 /-! ## The annotation writer of `infer_chords_for_sequence` -/
 
 /-- the `if name != current_name: emit; current_name = name` loop, from frame `t` on:
@@ -289,23 +339,26 @@ def kcStates (C : Nat) (path : List Nat) : Except String (List (Nat × String ×
     | .error e, _ => .error e
     | _, .error e => .error e) path
 
-/-- the chord-symbol annotations and (when requested) key signatures added for a path -/
+/-- one `text_annotations.add()` -/
+def annOf (R : Rat → Rat) (tm : Timing) (x : Nat × Nat × String × String) : Except String ChordAnn :=
+  match frameTime R tm x.1, frameStep tm x.1 with
+  | .ok t, .ok q => .ok ⟨x.1, t, q, x.2.2.2⟩
+  | .error e, _ => .error e
+  | _, .error e => .error e
+
+/-- one `key_signatures.add()` -/
+def keyOf (R : Rat → Rat) (tm : Timing) (x : Nat × Nat × String × String) : Except String KeySig :=
+  match frameTime R tm x.1 with
+  | .ok t => .ok ⟨x.1, t, x.2.1⟩
+  | .error e => .error e
+
+/-- the chord-symbol annotations and (when requested) key signatures added for a path of
+`(key, key name, figure)` states -/
 def chordWriter (R : Rat → Rat) (tm : Timing) (addKeys : Bool) (states : List (Nat × String × String)) :
     Except String (List ChordAnn × List KeySig) :=
-  let anns := mapOk (fun (x : Nat × Nat × String × String) =>
-      match frameTime R tm x.1, frameStep tm x.1 with
-      | .ok t, .ok q => .ok (ChordAnn.mk x.1 t q x.2.2.2)
-      | .error e, _ => .error e
-      | _, .error e => .error e)
-    (changesFrom (fun s : Nat × String × String => s.2.2) none 0 states)
-  let keys := if addKeys then
-      mapOk (fun (x : Nat × Nat × String × String) =>
-        match frameTime R tm x.1 with
-        | .ok t => .ok (KeySig.mk x.1 t x.2.1)
-        | .error e => .error e)
-      (changesFrom (fun s : Nat × String × String => s.2.1) none 0 states)
-    else .ok []
-  match anns, keys with
+  match mapOk (annOf R tm) (changesFrom (fun s : Nat × String × String => s.2.2) none 0 states),
+    (if addKeys then mapOk (keyOf R tm) (changesFrom (fun s : Nat × String × String => s.2.1) none 0 states)
+     else .ok []) with
   | .ok a, .ok k => .ok (a, k)
   | .error e, _ => .error e
   | _, .error e => .error e
@@ -355,6 +408,8 @@ structure FNote where
   pitch : Nat
   start : Rat
   stop : Rat
+  isDrum : Bool
+  program : Nat
 deriving DecidableEq, Repr
 
 /-- insert into a sorted duplicate-free list (`sorted(set(..))`) -/
@@ -382,8 +437,9 @@ structure Frames where
   present : List (Nat × Nat)
 deriving DecidableEq, Repr
 
-/-- `sequence_note_frames` on the pitched notes (drums / unpitched programs already removed) -/
-def noteFrames (notes : List FNote) (total : Rat) : Frames :=
+/-- `sequence_note_frames` -/
+def noteFrames (allNotes : List FNote) (total : Rat) : Frames :=
+  let notes := allNotes.filter fun n => !n.isDrum && !Gen.unpitchedPrograms.contains n.program
   let ev := sortedSet (fun a b => decide (a < b)) ((notes.map (·.start) ++ notes.map (·.stop)).filter fun t => t ≠ 0 ∧ t ≠ total)
   let pitches := sortedSet (fun a b => decide (a < b)) (notes.map (·.pitch))
   let idx := fun p => (pitches.takeWhile (· < p)).length
@@ -422,7 +478,8 @@ def rotChord (k c : Nat) : Nat :=
     let nk := Gen.kindPitches.length
     1 + (((c - 1) / nk + k) % 12) * nk + (c - 1) % nk
 
-/-- the key-chord state `k` semitones higher -/
-def rotState (C k i : Nat) : Nat := ((i / C + k) % 12) * C + rotChord k (i % C)
+/-- the key-chord state `k` semitones higher (`rot` = the chord relabelling, `rotChord k` for the
+real table) -/
+def rotState (C k : Nat) (rot : Nat → Nat) (i : Nat) : Nat := ((i / C + k) % 12) * C + rot (i % C)
 
 end NSV.C19
